@@ -26,6 +26,7 @@ import (
 )
 
 var run *hlib.Run
+var stressBlocks int // commit blocks the coordinator saw in the concurrent stream
 
 const group = "g"
 const missing = 99999 // verdict "no entry in the response"
@@ -332,6 +333,10 @@ type env struct {
 	req    *sarama.OffsetCommitRequest
 	closed bool
 	broken bool
+
+	// concurrent stream (no model line): blocks seen by the coordinator, per partition, in arrival order
+	stress     bool
+	stressSeen [][]pair
 }
 
 var (
@@ -500,6 +505,18 @@ func onCommit(req *sarama.OffsetCommitRequest) *sarama.OffsetCommitResponse {
 	}
 	e.mu.Lock()
 	defer e.mu.Unlock()
+	if e.stress {
+		resp := &sarama.OffsetCommitResponse{Version: req.Version}
+		for _, b := range sarama.VerifC06Blocks(req) {
+			if i := idxOf(b.Topic, b.Partition); i >= 0 && i < len(e.stressSeen) {
+				pr := pair{b.Offset, metaCode(b.Metadata)}
+				e.stressSeen[i] = append(e.stressSeen[i], pr)
+				e.store[i] = &blockT{pr: pr}
+			}
+			resp.AddError(b.Topic, b.Partition, sarama.ErrNoError)
+		}
+		return resp
+	}
 	txt, blocks := e.observeRequest(req)
 	if len(e.queue) == 0 { // unscripted (clean-up Close after the case): accept everything
 		rep := repT{kind: "r", vs: make([]int, len(e.c.stores))}
@@ -1207,11 +1224,126 @@ func exhaustive(maxLen int, emit func(*caseT)) {
 	rec(nil, maxLen)
 }
 
+// stressCase: application goroutines mark concurrently with the committer (real scheduler, real locks).
+// Goroutine g of nG marks the offsets g+1, g+1+nG, ... (metadata code = offset % 5) on every partition while the
+// main goroutine commits in a loop; then the markers are joined and Close() is called with auto-commit on and
+// an accepting coordinator. Oracle: every committed pair is a marked pair (offset and metadata belong
+// together), commits per partition never go backwards, and after Close the store holds the highest mark.
+func stressCase(seed uint64, nParts, nG, nMarks int) {
+	desc := fmt.Sprintf("stress %d %d %d %d", seed, nParts, nG, nMarks)
+	run.Case(desc)
+	run.Count("stress-concurrent")
+	ensureBroker()
+	conf := sarama.NewConfig()
+	conf.Consumer.Return.Errors = false
+	conf.Consumer.Offsets.AutoCommit.Enable = true
+	conf.Consumer.Offsets.AutoCommit.Interval = time.Hour
+	conf.Consumer.Offsets.Retry.Max = 1
+	conf.Metadata.Retry.Max = 0
+	c := &caseT{auto: true, rmax: 1, ini: -1, stores: make([]*pair, nParts)}
+	e := &env{c: c, line: desc, conf: conf, single: -1, stress: true, stressSeen: make([][]pair, nParts),
+		store: make([]*blockT, nParts), sh: make([]shadowT, nParts), poms: make([]sarama.PartitionOffsetManager, nParts)}
+	e.cl = &fakeClient{e: e}
+	curMu.Lock()
+	cur = e
+	curMu.Unlock()
+	defer func() {
+		curMu.Lock()
+		cur = nil
+		curMu.Unlock()
+		for _, b := range e.cl.brokers {
+			_ = b.Close()
+		}
+	}()
+	om, err := sarama.NewOffsetManagerFromClient(group, e.cl)
+	if err != nil {
+		run.IOFail("stress-setup", desc, err.Error())
+		return
+	}
+	e.om = om
+	for i := 0; i < nParts; i++ {
+		t, p := topicOf(i)
+		pom, err := om.ManagePartition(t, p)
+		if err != nil {
+			run.IOFail("stress-setup", desc, err.Error())
+			return
+		}
+		e.poms[i] = pom
+	}
+	var wg sync.WaitGroup
+	stop := make(chan struct{})
+	for g := 0; g < nG; g++ {
+		wg.Add(1)
+		go func(g int) {
+			defer wg.Done()
+			r := hlib.NewRand(seed*131 + uint64(g))
+			for k := 0; k < nMarks; k++ {
+				o := int64(g + 1 + k*nG)
+				for i := 0; i < nParts; i++ {
+					e.poms[i].MarkOffset(o, metaStr(int(o%5)))
+				}
+				if r.Chance(1, 8) {
+					time.Sleep(time.Microsecond * time.Duration(r.Intn(50)))
+				}
+			}
+		}(g)
+	}
+	committerDone := make(chan struct{})
+	go func() {
+		defer close(committerDone)
+		for {
+			select {
+			case <-stop:
+				return
+			default:
+				om.Commit()
+			}
+		}
+	}()
+	wg.Wait()
+	close(stop)
+	select {
+	case <-committerDone:
+	case <-time.After(20 * time.Second):
+		run.IOFail("timeout", desc, "Commit loop did not stop")
+		return
+	}
+	if !guarded(func() { _ = om.Close() }) {
+		run.IOFail("timeout", desc, "Close did not return")
+		return
+	}
+	e.mu.Lock()
+	defer e.mu.Unlock()
+	top := int64(nG * nMarks)
+	for i := 0; i < nParts; i++ {
+		stressBlocks += len(e.stressSeen[i])
+		last := int64(-1)
+		for _, pr := range e.stressSeen[i] {
+			if pr.o < 1 || pr.o > top || pr.m != int(pr.o%5) {
+				run.IOFail("committed-pair-never-marked", desc, fmt.Sprintf("partition %d: request carries %s", i, showPair(pr)))
+			}
+			if pr.o < last {
+				run.IOFail("commit-goes-backwards-without-reset", desc, fmt.Sprintf("partition %d: %d after %d", i, pr.o, last))
+			}
+			last = pr.o
+		}
+		if want := (pair{top, int(top % 5)}); fetchedOf(e.store[i]) != want {
+			run.IOFail("close-did-not-flush-latest-mark", desc,
+				fmt.Sprintf("partition %d: stored %s, latest mark %s", i, showPair(fetchedOf(e.store[i])), showPair(want)))
+		}
+	}
+}
+
 func main() {
 	run = hlib.Start("C06")
 	rnd := hlib.NewRand(run.Seed)
 	if lines := run.ReplayLines(); lines != nil {
 		for _, l := range lines {
+			if t := strings.Fields(l); len(t) == 5 && t[0] == "stress" {
+				sd, _ := strconv.ParseUint(t[1], 10, 64)
+				stressCase(sd, hlib.Atoi(t[2]), hlib.Atoi(t[3]), hlib.Atoi(t[4]))
+				continue
+			}
 			c, ok := parseCase(l)
 			if !ok {
 				run.Emit(l, "bad-op")
@@ -1229,10 +1361,10 @@ func main() {
 			n = 100000
 		}
 	}
-	exLen := 3
+	exLen := 4
 	if run.Tier == "thorough" {
 		exLen = 5
-		if run.Seed%4 != 1 { // the enumeration does not depend on the seed: do the long one once per thorough run
+		if run.Seed%2 != 1 { // the enumeration does not depend on the seed: do the long one once per thorough run
 			exLen = 3
 		}
 	}
@@ -1246,15 +1378,23 @@ func main() {
 	for i := 0; i < n/2; i++ {
 		emitCase(genFine(rnd), "fine-random")
 	}
+	nStress := 20
+	if run.Tier == "thorough" {
+		nStress = 300
+	}
+	for i := 0; i < nStress; i++ {
+		stressCase(rnd.U64()%1000000, rnd.Range(1, 3), rnd.Range(2, 6), rnd.Range(2000, 20000))
+	}
 	finish()
 }
 
 func finish() {
+	run.Set("stress_commit_blocks_seen", stressBlocks)
 	if mb != nil {
 		mb.Close()
 	}
 	run.Finish("wire: random op sequences (<= 40 ops, 1-4 partitions over 2 topics) through the public API against a scripted coordinator, " +
 		"application calls placed inside the commit window by the coordinator's handler; steered windows: a mark lands in every commit window; " +
 		"fine: constructRequest / coordinator / handleResponse / releasePOMs called one by one with arbitrary calls in between, " +
-		"exhaustive over a 12-symbol alphabet up to the tier's length, then random. non-trivial = distinct case with a call inside a commit window")
+		"exhaustive over a 12-symbol alphabet up to the tier's length, then random; stress: goroutines marking concurrently with a commit loop, then Close (oracle only). non-trivial = distinct case with a call inside a commit window")
 }
